@@ -85,9 +85,11 @@ impl TimeParser {
         let digits = num_digits_u128(abs);
         let secs = match digits {
             0..=11 => n,                  // seconds (and small negatives)
-            12..=14 => n / 1_000,         // ms -> s
-            15..=16 => n / 1_000_000,     // µs -> s
-            17..=19 => n / 1_000_000_000, // ns -> s
+            // Floor (not truncate) so that negative sub-second remainders agree with
+            // RFC3339 fractions and float seconds, which are floored as well.
+            12..=14 => n.div_euclid(1_000),         // ms -> s
+            15..=16 => n.div_euclid(1_000_000),     // µs -> s
+            17..=19 => n.div_euclid(1_000_000_000), // ns -> s
             _ => return None,
         };
         i64::try_from(secs).ok()
